@@ -187,7 +187,7 @@ def _x_runner(tier: str, seed: int, workers: int):
     sys.modules.pop("xh._gen.c13_x", None)
     importlib.invalidate_caches()
     sigs = {n: f"x-is_instance-disagrees:{n}" for n in names}
-    obs = run_obligations("xh._gen.c13_x", names, 60 if tier == "quick" else 180, workers=workers, signatures=sigs)
+    obs = run_obligations("xh._gen.c13_x", names, 120 if tier == "quick" else 300, workers=workers, signatures=sigs)
     mod = importlib.import_module("xh._gen.c13_x")
     for o, ann in zip(obs, mod.ANNOTATIONS):
         o.detail["annotation"] = ann
